@@ -1,6 +1,623 @@
 /- helper lemmas: every statement function preserves TableOk (C03, C08) -/
-import DC.Proofs.Paging
+import DC.Proofs.Cull
+import DC.Proofs.Keys
 
 namespace DC.Cache
+
+/-! ### list-level facts about `TableOk` -/
+
+theorem TableOk.nil : TableOk [] 0 0 :=
+  ⟨List.Pairwise.nil, by simp, List.Pairwise.nil, by simp, rfl, rfl⟩
+
+/-- mapping the rows with a function that keeps rowid, key and raw -/
+theorem tableOk_map {rows : List Row} {c z z' : Int} (f : Row → Row)
+    (hid : ∀ r, (f r).rowid = r.rowid) (hk : ∀ r, (f r).key = r.key) (hraw : ∀ r, (f r).raw = r.raw)
+    (h : TableOk rows c z) (hz : z' = sumSizes (rows.map f)) : TableOk (rows.map f) c z' := by
+  constructor
+  · unfold RowidsAsc; rw [List.pairwise_map]; simpa [RowidsAsc, hid] using h.asc
+  · intro r hr; obtain ⟨a, ha, rfl⟩ := List.mem_map.1 hr; rw [hid]; exact h.pos a ha
+  · unfold KeysUnique; rw [List.pairwise_map]; simpa [KeysUnique, hk, hraw] using h.uniq
+  · intro r hr; obtain ⟨a, ha, rfl⟩ := List.mem_map.1 hr; rw [hk]; exact h.nonnull a ha
+  · simp [h.count]
+  · exact hz
+
+theorem sumSizes_map_keep (rows : List Row) (f : Row → Row) (hsz : ∀ r, (f r).size = r.size) :
+    sumSizes (rows.map f) = sumSizes rows := by
+  unfold sumSizes; rw [List.map_map]; congr 1
+  apply List.map_congr_left; intro r _; simp [hsz]
+
+/-- mapping with a function that keeps rowid, key, raw and size -/
+theorem tableOk_map_keep {rows : List Row} {c z : Int} (f : Row → Row)
+    (hid : ∀ r, (f r).rowid = r.rowid) (hk : ∀ r, (f r).key = r.key) (hraw : ∀ r, (f r).raw = r.raw)
+    (hsz : ∀ r, (f r).size = r.size) (h : TableOk rows c z) : TableOk (rows.map f) c z :=
+  tableOk_map f hid hk hraw h (by rw [sumSizes_map_keep rows f hsz]; exact h.size)
+
+theorem filter_rowid_counts {rows : List Row} (hasc : RowidsAsc rows) (r : Row) (hr : r ∈ rows) :
+    ((rows.filter (·.rowid != r.rowid)).length : Int) = rows.length - 1 ∧
+    sumSizes (rows.filter (·.rowid != r.rowid)) = sumSizes rows - r.size := by
+  induction rows with
+  | nil => cases hr
+  | cons x xs ih =>
+    have hx := List.pairwise_cons.mp hasc
+    rcases List.mem_cons.mp hr with rfl | hr'
+    · have hxs : xs.filter (·.rowid != r.rowid) = xs := by
+        rw [List.filter_eq_self]; intro a ha
+        have := hx.1 a ha
+        simp; omega
+      simp only [List.filter_cons, bne_self_eq_false, Bool.false_eq_true, if_false, hxs,
+        List.length_cons, sumSizes_cons]
+      constructor <;> omega
+    · have hlt := hx.1 r hr'
+      have hne : (x.rowid != r.rowid) = true := by simp; omega
+      obtain ⟨i1, i2⟩ := ih hx.2 hr'
+      simp only [List.filter_cons, hne, if_true, List.length_cons, sumSizes_cons]
+      constructor
+      · push_cast; omega
+      · omega
+
+theorem tableOk_sublist_core {rows sub : List Row} {c z c' z' : Int} (h : TableOk rows c z)
+    (hs : sub.Sublist rows) (hc : c' = sub.length) (hz : z' = sumSizes sub) : TableOk sub c' z' :=
+  ⟨h.asc.sublist hs, fun r hr => h.pos r (hs.subset hr), h.uniq.sublist hs,
+   fun r hr => h.nonnull r (hs.subset hr), hc, hz⟩
+
+theorem tableOk_filter_rowid {rows : List Row} {c z : Int} (h : TableOk rows c z) (r : Row)
+    (hr : r ∈ rows) : TableOk (rows.filter (·.rowid != r.rowid)) (c - 1) (z - r.size) := by
+  obtain ⟨i1, i2⟩ := filter_rowid_counts h.asc r hr
+  exact tableOk_sublist_core h List.filter_sublist (by rw [i1, h.count]) (by rw [i2, h.size])
+
+theorem tableOk_append {rows : List Row} {c z : Int} (h : TableOk rows c z) (r : Row)
+    (hid : ∀ x ∈ rows, x.rowid < r.rowid) (hpos : 0 < r.rowid)
+    (hk : ∀ x ∈ rows, ¬ (x.key.eqv r.key = true ∧ x.raw = r.raw)) (hnn : r.key ≠ .null) :
+    TableOk (rows ++ [r]) (c + 1) (z + r.size) := by
+  constructor
+  · unfold RowidsAsc; rw [List.pairwise_append]
+    exact ⟨h.asc, by simp, fun a ha b hb => by simp at hb; subst hb; exact hid a ha⟩
+  · intro x hx; rcases List.mem_append.1 hx with hx | hx
+    · exact h.pos x hx
+    · simp at hx; subst hx; exact hpos
+  · unfold KeysUnique; rw [List.pairwise_append]
+    exact ⟨h.uniq, by simp, fun a ha b hb => by simp at hb; subst hb; exact hk a ha⟩
+  · intro x hx; rcases List.mem_append.1 hx with hx | hx
+    · exact h.nonnull x hx
+    · simp at hx; subst hx; exact hnn
+  · simp [h.count]
+  · rw [sumSizes_append, h.size]; simp [sumSizes]
+
+theorem any_false_of_lt {xs : List Row} {n : Nat} (h : ∀ a ∈ xs, n < a.rowid) :
+    xs.any (·.rowid == n) = false := by
+  rw [List.any_eq_false]; intro a ha; have := h a ha; simp; omega
+
+theorem sumSizes_updRow (rows : List Row) (hasc : RowidsAsc rows) (rowid : Nat) (f : Row → Row)
+    (n : Nat) (hf : ∀ r, (f r).size = n) :
+    sumSizes (rows.map (fun r => if r.rowid == rowid then f r else r)) =
+      if rows.any (·.rowid == rowid) then sumSizes rows + n - rowSize rows rowid
+      else sumSizes rows := by
+  induction rows with
+  | nil => simp [sumSizes]
+  | cons x xs ih =>
+    have hx := List.pairwise_cons.mp hasc
+    have ih := ih hx.2
+    by_cases hxr : x.rowid = rowid
+    · have hany : xs.any (·.rowid == rowid) = false :=
+        any_false_of_lt (fun a ha => by have := hx.1 a ha; omega)
+      rw [hany] at ih
+      simp only [Bool.false_eq_true, if_false] at ih
+      simp only [List.map_cons, sumSizes_cons, ih, List.any_cons, rowSize, List.find?_cons, hxr,
+        beq_self_eq_true, if_true, Bool.true_or, hf]
+      omega
+    · have hb : (x.rowid == rowid) = false := by simpa using hxr
+      simp only [List.map_cons, sumSizes_cons, ih, List.any_cons, rowSize, List.find?_cons, hb,
+        Bool.false_eq_true, if_false, Bool.false_or]
+      split <;> omega
+
+/-! ### `TableInv` is about four fields only -/
+
+theorem TableInv.same {s t : Cache} (h : TableInv s) (hr : t.rows = s.rows) (hc : t.count = s.count)
+    (hz : t.size = s.size) (hs : t.snap = s.snap) : TableInv t := by
+  constructor
+  · rw [hr, hc, hz]; exact h.tbl
+  · rw [hs]; exact h.snap
+
+theorem TableInv.of_tbl {s t : Cache} (h : TableInv s) (ht : TableOk t.rows t.count t.size)
+    (hs : t.snap = s.snap) : TableInv t := by
+  constructor
+  · exact ht
+  · rw [hs]; exact h.snap
+
+theorem log_inv {s : Cache} (a : Act) (h : TableInv s) : TableInv (s.log a) := h.same rfl rfl rfl rfl
+theorem logSql_inv {s : Cache} (a : String) (h : TableInv s) : TableInv (s.logSql a) :=
+  h.same rfl rfl rfl rfl
+theorem fwrite_inv {s : Cache} (c : Content) (h : TableInv s) : TableInv (s.fwrite c).1 :=
+  h.same rfl rfl rfl rfl
+theorem fremove_inv {s : Cache} (f : Nat) (h : TableInv s) : TableInv (s.fremove f) :=
+  h.same rfl rfl rfl rfl
+
+@[simp] theorem log_snap (s : Cache) (a : Act) : (s.log a).snap = s.snap := rfl
+@[simp] theorem logSql_snap (s : Cache) (a : String) : (s.logSql a).snap = s.snap := rfl
+@[simp] theorem fremove_snap (s : Cache) (f : Nat) : (s.fremove f).snap = s.snap := rfl
+
+theorem fremoveAll_inv (fs : List (Option Nat)) : ∀ {s : Cache}, TableInv s → TableInv (s.fremoveAll fs) := by
+  induction fs with
+  | nil => intro s h; exact h
+  | cons a t ih =>
+    intro s h
+    cases a with
+    | none => exact ih h
+    | some f => exact ih (fremove_inv f h)
+
+theorem removeCommitted_inv {s : Cache} (f : Option Nat) (h : TableInv s) :
+    TableInv (s.removeCommitted f) := by
+  unfold removeCommitted
+  cases f with
+  | none => exact h
+  | some f =>
+    simp only
+    split
+    · exact h.same rfl rfl rfl rfl
+    · exact fremove_inv f h
+
+@[simp] theorem removeCommitted_rows (s : Cache) (f : Option Nat) : (s.removeCommitted f).rows = s.rows := by
+  unfold removeCommitted
+  cases f with
+  | none => rfl
+  | some f => simp only; split <;> rfl
+
+theorem store_inv {s s' : Cache} {E : Externals} {v : PyVal} {read : Bool} {c : Cols}
+    (hst : s.store E v read = .ok (s', c)) (h : TableInv s) : TableInv s' ∧ s'.rows = s.rows := by
+  unfold store at hst
+  split at hst
+  · cases hst
+  · cases hst; exact ⟨h, rfl⟩
+  · cases hst; exact ⟨fwrite_inv _ h, rfl⟩
+
+theorem fetchRow_inv {s : Cache} (E : Externals) (r : Row) (read : Bool) (h : TableInv s) :
+    TableInv (s.fetchRow E r read).1 := by
+  unfold fetchRow
+  split
+  · simp only; split
+    · exact h
+    · exact log_inv _ h
+  · exact h
+
+@[simp] theorem fetchRow_rows (s : Cache) (E : Externals) (r : Row) (read : Bool) :
+    (s.fetchRow E r read).1.rows = s.rows := by
+  unfold fetchRow
+  split
+  · simp only; split <;> rfl
+  · rfl
+
+theorem volume_inv {s : Cache} (h : TableInv s) : TableInv s.volume.1 := by
+  unfold volume
+  simp only
+  split <;> exact h.same rfl rfl rfl rfl
+
+/-! ### UPDATE statements -/
+
+theorem touchPolicy_keep (p : Policy) (now : Int) (r : Row) :
+    (touchPolicy p now r).rowid = r.rowid ∧ (touchPolicy p now r).key = r.key ∧
+    (touchPolicy p now r).raw = r.raw ∧ (touchPolicy p now r).size = r.size ∧
+    (touchPolicy p now r).val = r.val ∧ (touchPolicy p now r).file = r.file ∧
+    (touchPolicy p now r).expT = r.expT ∧ (touchPolicy p now r).tag = r.tag := by
+  cases p <;> simp [touchPolicy]
+
+@[simp] theorem touchPolicy_rowid (p : Policy) (now : Int) (r : Row) :
+    (touchPolicy p now r).rowid = r.rowid := (touchPolicy_keep p now r).1
+@[simp] theorem touchPolicy_key (p : Policy) (now : Int) (r : Row) :
+    (touchPolicy p now r).key = r.key := (touchPolicy_keep p now r).2.1
+@[simp] theorem touchPolicy_raw (p : Policy) (now : Int) (r : Row) :
+    (touchPolicy p now r).raw = r.raw := (touchPolicy_keep p now r).2.2.1
+@[simp] theorem touchPolicy_size (p : Policy) (now : Int) (r : Row) :
+    (touchPolicy p now r).size = r.size := (touchPolicy_keep p now r).2.2.2.1
+@[simp] theorem touchPolicy_val (p : Policy) (now : Int) (r : Row) :
+    (touchPolicy p now r).val = r.val := (touchPolicy_keep p now r).2.2.2.2.1
+@[simp] theorem touchPolicy_file (p : Policy) (now : Int) (r : Row) :
+    (touchPolicy p now r).file = r.file := (touchPolicy_keep p now r).2.2.2.2.2.1
+@[simp] theorem touchPolicy_expT (p : Policy) (now : Int) (r : Row) :
+    (touchPolicy p now r).expT = r.expT := (touchPolicy_keep p now r).2.2.2.2.2.2.1
+@[simp] theorem touchPolicy_tag (p : Policy) (now : Int) (r : Row) :
+    (touchPolicy p now r).tag = r.tag := (touchPolicy_keep p now r).2.2.2.2.2.2.2
+
+theorem updExp_inv {s : Cache} (rowid : Nat) (e : Option Int) (h : TableInv s) :
+    TableInv (s.updExp rowid e) := by
+  refine h.of_tbl ?_ rfl
+  exact tableOk_map_keep _ (by intro r; by_cases hc : r.rowid = rowid <;> simp [hc]) (by intro r; by_cases hc : r.rowid = rowid <;> simp [hc])
+    (by intro r; by_cases hc : r.rowid = rowid <;> simp [hc]) (by intro r; by_cases hc : r.rowid = rowid <;> simp [hc]) h.tbl
+
+theorem updGet_inv {s : Cache} (rowid : Nat) (now : Int) (h : TableInv s) :
+    TableInv (s.updGet rowid now) := by
+  refine h.of_tbl ?_ rfl
+  exact tableOk_map_keep _
+    (by intro r; by_cases hc : r.rowid = rowid <;> simp [hc])
+    (by intro r; by_cases hc : r.rowid = rowid <;> simp [hc])
+    (by intro r; by_cases hc : r.rowid = rowid <;> simp [hc])
+    (by intro r; by_cases hc : r.rowid = rowid <;> simp [hc]) h.tbl
+
+theorem updIncr_inv {s : Cache} (rowid : Nat) (now : Int) (v : SqlVal) (h : TableInv s) :
+    TableInv (s.updIncr rowid now v) := by
+  refine h.of_tbl ?_ rfl
+  exact tableOk_map_keep _
+    (by intro r; by_cases hc : r.rowid = rowid <;> simp [hc])
+    (by intro r; by_cases hc : r.rowid = rowid <;> simp [hc])
+    (by intro r; by_cases hc : r.rowid = rowid <;> simp [hc])
+    (by intro r; by_cases hc : r.rowid = rowid <;> simp [hc]) h.tbl
+
+theorem updRow_inv {s : Cache} (rowid : Nat) (now : Int) (c : Cols) (h : TableInv s) :
+    TableInv (s.updRow rowid now c) := by
+  refine h.of_tbl ?_ rfl
+  have hsum := sumSizes_updRow s.rows h.tbl.asc rowid
+    (fun r => { r with storeT := now, expT := c.expT, accT := now, accN := 0, tag := c.tag,
+                       size := c.size, mode := c.mode, file := c.file, val := c.val }) c.size
+    (fun _ => rfl)
+  refine tableOk_map _ (by intro r; by_cases hc : r.rowid = rowid <;> simp [hc]) (by intro r; by_cases hc : r.rowid = rowid <;> simp [hc])
+    (by intro r; by_cases hc : r.rowid = rowid <;> simp [hc]) h.tbl ?_
+  show (if s.rows.any (·.rowid == rowid) then s.size + c.size - rowSize s.rows rowid else s.size) = _
+  rw [hsum, h.tbl.size]
+
+/-! ### INSERT -/
+
+theorem insRow_inv {s : Cache} (k : SqlVal) (raw : Bool) (now : Int) (c : Cols) (h : TableInv s)
+    (hsel : s.selKey k raw = none) (hnn : k ≠ .null) : TableInv (s.insRow k raw now c) := by
+  refine h.of_tbl ?_ rfl
+  have hnone := List.find?_eq_none.mp hsel
+  exact tableOk_append h.tbl _
+    (fun x hx => by have := le_maxRowid s.rows x hx; show x.rowid < maxRowid s.rows + 1; omega)
+    (Nat.succ_pos _)
+    (fun x hx hc => by
+      have := hnone x hx
+      apply this
+      simp only [keyMatch, Bool.and_eq_true, beq_iff_eq]
+      exact hc)
+    hnn
+
+/-! ### DELETE -/
+
+theorem delRowQuiet_inv {s : Cache} (rowid : Nat) (h : TableInv s) : TableInv (s.delRowQuiet rowid) := by
+  unfold delRowQuiet
+  split
+  · rename_i r hf
+    refine h.of_tbl ?_ rfl
+    have hm := List.mem_of_find?_eq_some hf
+    have hp : r.rowid = rowid := by simpa using List.find?_some hf
+    subst hp
+    exact tableOk_filter_rowid h.tbl r hm
+  · exact h
+
+theorem delRow_inv {s : Cache} (rowid : Nat) (h : TableInv s) : TableInv (s.delRow rowid) :=
+  logSql_inv _ (delRowQuiet_inv rowid h)
+
+theorem delIn_inv (ids : List Nat) : ∀ {s : Cache}, TableInv s → TableInv (s.delIn ids) := by
+  induction ids with
+  | nil => intro s h; exact h
+  | cons a t ih => intro s h; exact ih (delRowQuiet_inv a h)
+
+theorem cullW_inv {s : Cache} (now : Int) (limit : Option Nat) (h : TableInv s) :
+    TableInv (s.cullW now limit).1 := by
+  unfold cullW
+  simp only
+  repeat' first
+    | assumption
+    | apply logSql_inv
+    | apply delIn_inv
+    | apply volume_inv
+    | split
+
+/-! ### transactions -/
+
+theorem selKey_congr {s t : Cache} (h : t.rows = s.rows) (k : SqlVal) (raw : Bool) :
+    t.selKey k raw = s.selKey k raw := by unfold selKey; rw [h]
+
+theorem selLive_congr {s t : Cache} (h : t.rows = s.rows) (k : SqlVal) (raw : Bool) (now : Int) :
+    t.selLive k raw now = s.selLive k raw now := by unfold selLive; rw [h]
+
+/-- if the body keeps the invariant (whether it succeeds or raises), so does the transaction -/
+theorem transact_inv {s : Cache} (body : Cache → Body) (fresh : Option Nat) (h : TableInv s)
+    (hb : ∀ t, TableInv t → t.rows = s.rows → TableInv (body t).s) :
+    TableInv (s.transact body fresh).1 := by
+  unfold transact
+  split
+  · cases fresh with
+    | none =>
+      simp only
+      have hB := hb s h rfl
+      split
+      · exact hB.same rfl rfl rfl rfl
+      · exact hB
+    | some f =>
+      simp only
+      have hB := hb { s with created := s.created ++ [f] } (h.same rfl rfl rfl rfl) rfl
+      split
+      · exact hB.same rfl rfl rfl rfl
+      · exact hB
+  · have hB := hb (s.log .begin) (log_inv _ h) rfl
+    simp only
+    split
+    · exact fremoveAll_inv _ (log_inv _ hB)
+    · cases fresh with
+      | none => exact ⟨h.tbl, hB.snap⟩
+      | some f => exact ⟨h.tbl, hB.snap⟩
+
+theorem transact_inv' {s s' : Cache} {o : Out} {body : Cache → Body} {fresh : Option Nat}
+    (heq : s.transact body fresh = (s', o)) (h : TableInv s)
+    (hb : ∀ t, TableInv t → t.rows = s.rows → TableInv (body t).s) : TableInv s' := by
+  have := transact_inv body fresh h hb
+  rw [heq] at this; exact this
+
+theorem deletePage_inv {s : Cache} (page : List Row) (sel : String) (h : TableInv s) :
+    TableInv (s.deletePage page sel) := by
+  rw [deletePage_eq]
+  apply transact_inv _ _ h
+  intro t ht _
+  unfold pageBody
+  simp only
+  split
+  · exact logSql_inv _ ht
+  · exact logSql_inv _ (delIn_inv _ (logSql_inv _ ht))
+
+theorem tbegin_inv' {s : Cache} (h : TableInv s) : TableInv s.tbegin := by
+  unfold tbegin
+  split
+  · refine ⟨h.tbl, ?_⟩
+    intro p hp
+    cases hp
+    exact h.tbl
+  · exact h.same rfl rfl rfl rfl
+
+theorem tend_inv' {s : Cache} (h : TableInv s) : TableInv s.tend := by
+  unfold tend
+  split
+  · simp only
+    have h1 : TableInv { (s.log .commit) with depth := 0, snap := none } := ⟨h.tbl, nofun⟩
+    exact (fremoveAll_inv _ h1).same rfl rfl rfl rfl
+  · exact h.same rfl rfl rfl rfl
+
+theorem traise_inv' {s : Cache} (n : Nat) (h : TableInv s) : TableInv (s.traise n) := by
+  unfold traise
+  split
+  · split
+    · rename_i p hp
+      simp only
+      have h1 : TableInv { ((s.restore p).log .rollback) with depth := 0, snap := none } :=
+        ⟨h.snap p hp, nofun⟩
+      exact (fremoveAll_inv _ h1).same rfl rfl rfl rfl
+    · exact h.same rfl rfl rfl rfl
+  · exact h.same rfl rfl rfl rfl
+
+theorem put_ne_null' (E : Externals) (d : DiskKind) (k : PyVal) : (put E d k).1 ≠ .null := by
+  cases d <;> cases k <;> simp [put, JSONDisk.put, Disk.put] <;> split <;> simp
+
+theorem queueKey_ne_null (pfx : Option Str) (num : Int) : queueKey pfx num ≠ .null := by
+  unfold queueKey
+  cases pfx with
+  | none => simp
+  | some p => simp only; split <;> simp
+
+theorem setMisses_inv {s : Cache} (m : Int) (h : TableInv s) : TableInv { s with misses := m } :=
+  h.same rfl rfl rfl rfl
+theorem setHits_inv {s : Cache} (m : Int) (h : TableInv s) : TableInv { s with hits := m } :=
+  h.same rfl rfl rfl rfl
+
+/-- close goals of the form `TableInv (f (g (… s)))` for unconditional statement functions -/
+macro "inv_auto" : tactic => `(tactic| repeat' first
+    | assumption
+    | contradiction
+    | with_reducible apply logSql_inv
+    | with_reducible apply log_inv
+    | with_reducible apply delIn_inv
+    | with_reducible apply volume_inv
+    | with_reducible apply cullW_inv
+    | with_reducible apply updRow_inv
+    | with_reducible apply updExp_inv
+    | with_reducible apply updGet_inv
+    | with_reducible apply updIncr_inv
+    | with_reducible apply delRow_inv
+    | with_reducible apply delRowQuiet_inv
+    | with_reducible apply fetchRow_inv
+    | with_reducible apply removeCommitted_inv
+    | with_reducible apply fremoveAll_inv
+    | with_reducible apply fremove_inv
+    | with_reducible apply deletePage_inv
+    | with_reducible refine transact_inv _ _ ?_ (fun _ _ _ => ?_)
+    | split)
+
+/-! ### loops -/
+
+theorem pullLoop_inv (E : Externals) (now : Int) (pfx : Option Str) (front et tg : Bool) :
+    ∀ (fuel : Nat) {s : Cache}, TableInv s → TableInv (pullLoop E now pfx front et tg fuel s).1 := by
+  intro fuel
+  induction fuel with
+  | zero => intro s h; exact h
+  | succ n ih =>
+    intro s h
+    simp only [pullLoop]
+    split
+    · inv_auto
+    · split
+      · apply ih; inv_auto
+      · split
+        · apply ih; inv_auto
+        · inv_auto
+
+theorem peekLoop_inv (E : Externals) (now : Int) (pfx : Option Str) (front et tg : Bool) :
+    ∀ (fuel : Nat) {s : Cache}, TableInv s → TableInv (peekLoop E now pfx front et tg fuel s).1 := by
+  intro fuel
+  induction fuel with
+  | zero => intro s h; exact h
+  | succ n ih =>
+    intro s h
+    simp only [peekLoop]
+    split
+    · inv_auto
+    · split
+      · apply ih; inv_auto
+      · split
+        · apply ih; inv_auto
+        · inv_auto
+
+theorem peekitemLoop_inv (E : Externals) (now : Int) (last et tg : Bool) :
+    ∀ (fuel : Nat) {s : Cache}, TableInv s → TableInv (peekitemLoop E now last et tg fuel s).1 := by
+  intro fuel
+  induction fuel with
+  | zero => intro s h; exact h
+  | succ n ih =>
+    intro s h
+    simp only [peekitemLoop]
+    split
+    · inv_auto
+    · split
+      · apply ih; inv_auto
+      · split
+        · apply ih; inv_auto
+        · inv_auto
+
+theorem clearLoop_inv : ∀ (fuel : Nat) {s : Cache} (cur n : Nat), TableInv s →
+    TableInv (clearLoop fuel s cur n).1 := by
+  intro fuel
+  induction fuel with
+  | zero => intro s cur n h; exact h
+  | succ k ih =>
+    intro s cur n h
+    simp only [clearLoop]
+    split
+    · inv_auto
+    · apply ih; inv_auto
+
+theorem evictLoop_inv (tag : SqlVal) : ∀ (fuel : Nat) {s : Cache} (cur n : Nat), TableInv s →
+    TableInv (evictLoop tag fuel s cur n).1 := by
+  intro fuel
+  induction fuel with
+  | zero => intro s cur n h; exact h
+  | succ k ih =>
+    intro s cur n h
+    simp only [evictLoop]
+    split
+    · inv_auto
+    · apply ih; inv_auto
+
+theorem expireLoop_inv (now : Int) : ∀ (fuel : Nat) {s : Cache} (lo : Option Int) (n : Nat), TableInv s →
+    TableInv (expireLoop now fuel s lo n).1 := by
+  intro fuel
+  induction fuel with
+  | zero => intro s lo n h; exact h
+  | succ k ih =>
+    intro s lo n h
+    simp only [expireLoop]
+    split
+    · inv_auto
+    · apply ih; inv_auto
+
+theorem cullLoop_inv' : ∀ (fuel : Nat) {s : Cache} (n : Nat), TableInv s →
+    TableInv (cullLoop fuel s n).1 := by
+  intro fuel
+  induction fuel with
+  | zero => intro s n h; exact h
+  | succ k ih =>
+    intro s n h
+    rw [cullLoop_succ]
+    split
+    · inv_auto
+    · split
+      · unfold cullEmpty; inv_auto
+      · apply ih; unfold cullStep; inv_auto
+
+theorem iterLoop_inv (asc : Bool) (bound : Nat) : ∀ (fuel : Nat) {s : Cache} (cur : Nat) (acc : List Row),
+    TableInv s → TableInv (iterLoop asc bound fuel s cur acc).1 := by
+  intro fuel
+  induction fuel with
+  | zero => intro s cur acc h; exact h
+  | succ k ih =>
+    intro s cur acc h
+    simp only [iterLoop]
+    split
+    · inv_auto
+    · apply ih; inv_auto
+
+theorem iterkeysLoop_inv (rev : Bool) : ∀ (fuel : Nat) {s : Cache} (cur : Row) (acc : List Row),
+    TableInv s → TableInv (iterkeysLoop rev fuel s cur acc).1 := by
+  intro fuel
+  induction fuel with
+  | zero => intro s cur acc h; exact h
+  | succ k ih =>
+    intro s cur acc h
+    simp only [iterkeysLoop]
+    split
+    · inv_auto
+    · apply ih; inv_auto
+
+/-! ### what a transaction does to the rows -/
+
+theorem transact_rows_of {s : Cache} (body : Cache → Body) (fresh : Option Nat) (P : List Row → Prop)
+    (hb : ∀ t, t.rows = s.rows → t.count = s.count → t.size = s.size → t.snap = s.snap →
+      P (body t).s.rows ∧ ((body t).ok = false → P s.rows)) :
+    P (s.transact body fresh).1.rows := by
+  unfold transact
+  split
+  · cases fresh with
+    | none =>
+      simp only
+      have hB := hb s rfl rfl rfl rfl
+      split
+      · exact hB.1
+      · exact hB.1
+    | some f =>
+      simp only
+      have hB := hb { s with created := s.created ++ [f] } rfl rfl rfl rfl
+      split
+      · exact hB.1
+      · exact hB.1
+  · have hB := hb (s.log .begin) rfl rfl rfl rfl
+    simp only
+    split
+    · rw [fremoveAll_rows]; exact hB.1
+    · rename_i hok
+      cases fresh with
+      | none => exact hB.2 (by simpa using hok)
+      | some f => exact hB.2 (by simpa using hok)
+
+theorem keysUnique_eq {rows : List Row} (hu : KeysUnique rows) {k : SqlVal} {raw : Bool} {r r' : Row}
+    (hr : r ∈ rows) (hr' : r' ∈ rows) (hk : keyMatch k raw r = true) (hk' : keyMatch k raw r' = true) :
+    r = r' := by
+  simp only [keyMatch, Bool.and_eq_true, beq_iff_eq] at hk hk'
+  have h1 : r.key.eqv r'.key = true := SqlVal.eqv_trans _ _ _ hk.1 (SqlVal.eqv_symm _ _ hk'.1)
+  have h2 : r'.key.eqv r.key = true := SqlVal.eqv_symm _ _ h1
+  induction rows with
+  | nil => cases hr
+  | cons x xs ih =>
+    have hx := List.pairwise_cons.mp hu
+    rcases List.mem_cons.mp hr with rfl | ha <;> rcases List.mem_cons.mp hr' with rfl | hb
+    · rfl
+    · exact absurd ⟨h1, hk.2.trans hk'.2.symm⟩ (hx.1 r' hb)
+    · exact absurd ⟨h2, hk'.2.trans hk.2.symm⟩ (hx.1 r ha)
+    · exact ih hx.2 ha hb
+
+/-- the columns a read never changes -/
+def readProj (r : Row) : Nat × SqlVal × Bool × SqlVal × Option Nat × Option Int × SqlVal :=
+  (r.rowid, r.key, r.raw, r.val, r.file, r.expT, r.tag)
+
+theorem updGet_readProj (s : Cache) (rowid : Nat) (now : Int) :
+    (s.updGet rowid now).rows.map readProj = s.rows.map readProj := by
+  show (s.rows.map _).map readProj = _
+  rw [List.map_map]
+  apply List.map_congr_left
+  intro r _
+  by_cases hc : r.rowid = rowid <;> simp [hc, readProj]
+
+/-- a row of the table after `updRow` either is the updated row or was there before -/
+theorem updRow_mem {s : Cache} (hasc : RowidsAsc s.rows) {r0 : Row} (hr0 : r0 ∈ s.rows) (now : Int)
+    (c : Cols) {r : Row} (hr : r ∈ (s.updRow r0.rowid now c).rows) :
+    (r.key = r0.key ∧ r.raw = r0.raw) ∨ r ∈ s.rows := by
+  have hr' : r ∈ s.rows.map _ := hr
+  obtain ⟨x, hx, rfl⟩ := List.mem_map.1 hr'
+  by_cases hc : x.rowid = r0.rowid
+  · have := rowidsAsc_eq_of_rowid hasc hx hr0 hc
+    subst this
+    left; simp
+  · right; simp [hc]; exact hx
+
+theorem insRow_mem {s : Cache} (k : SqlVal) (raw : Bool) (now : Int) (c : Cols) {r : Row}
+    (hr : r ∈ (s.insRow k raw now c).rows) : (r.key = k ∧ r.raw = raw) ∨ r ∈ s.rows := by
+  have hr' : r ∈ s.rows ++ [_] := hr
+  rcases List.mem_append.1 hr' with h | h
+  · right; exact h
+  · left; simp at h; subst h; exact ⟨rfl, rfl⟩
 
 end DC.Cache
